@@ -144,6 +144,9 @@ _NP_POOL = [np.arange(4), np.arange(4).reshape(2, 2), np.arange(4).reshape(4, 1)
             np.zeros((2, 2), dtype="int64"), np.array([0, 1, 2, 3]), np.arange(4)[::-1].copy(),
             np.arange(4).reshape(2, 2).T, np.asfortranarray(np.arange(4).reshape(2, 2)), np.arange(8)[::2], np.arange(4)[::-1],
             np.arange(20000), np.concatenate([np.arange(19999), [7]]), np.arange(16384 + 3), np.concatenate([np.arange(16384 + 2), [1]])]
+_NP_BO_POOL = [np.array([1, 256, 65536], dtype="<i4"), np.array([16777216, 65536, 256], dtype=">i4"), np.array([1, 256, 65536], dtype=">i4"),
+               np.array(["ab"], dtype="<U2"), np.array(["ab"], dtype="<U2").view(">U2"), np.array(["ab"], dtype=">U2"),
+               np.array([1, 2], dtype="<f8"), np.array([1, 2], dtype="<f8").view(">f8"), np.array([1, 2], dtype="<u2"), np.array([256, 512], dtype=">u2")]
 
 def _np_same(a, b):
     """same logical array: shape, element type and elements in index order (memory layout is not part of the value)"""
@@ -275,6 +278,17 @@ def build(tier, seed, exclude):
             return T.fail(lambda: "arrays shape %s dtype %s and shape %s dtype %s: hashes %s" % (a.shape, a.dtype, b.shape, b.dtype, "equal" if h1 == h2 else "differ"))
         return True
     """, timeout=to * 2)
+    g.cond("h_numpy_byteorder", "i: int, j: int", ["0 <= i < 10 and 0 <= j < 10"], """
+        HH.reset()
+        i, j = T.real(i), T.real(j)
+        a, b = _NP_BO_POOL[i], _NP_BO_POOL[j]
+        h1, h2 = HH.hs(a), HH.hs(b)
+        hn = HH.hs({"k": [a]}) == HH.hs({"k": [b]})
+        T.reach()
+        if (h1 == h2) != _np_same(a, b) or hn != _np_same(a, b):
+            return T.fail(lambda: "arrays %s dtype %s and %s dtype %s (same raw bytes: %s): hashes %s alone, %s nested" % (a.tolist(), a.dtype.str, b.tolist(), b.dtype.str, a.tobytes() == b.tobytes(), "equal" if h1 == h2 else "differ", "equal" if hn else "differ"))
+        return True
+    """, timeout=to * 2)
     g.cond("twin_c08", "x: int, y: int", ["True"], """
         err = _inj(x, y)
         return False
@@ -289,4 +303,4 @@ def build(tier, seed, exclude):
         return T.fail(err) if err else True
     """)
     return g.spec(bounds={"strings/bytes": "<= 2 (<= 1 inside containers)", "containers": "<= 2-3 elements", "nesting": "<= 2",
-                          "type pairs": len(pairs), "object attribute pool": 11, "type pool": 13, "array pool": "19 (shapes, dtypes, views, Fortran order, negative strides, arrays of > 16384 elements differing in the last element)"})
+                          "type pairs": len(pairs), "object attribute pool": 11, "type pool": 13, "array pool": "19 (shapes, dtypes, views, Fortran order, negative strides, arrays of > 16384 elements differing in the last element) + 10 byte-order variants (little/big-endian int, unicode, float, uint16 with equal raw bytes)"})
